@@ -126,7 +126,8 @@ contract('Collectors.FileCollector.__init__',
 def concat_is(F, R, C):
     """C == F ++ R (element by element)."""
     return (len(C) == len(F) + len(R) and all(same(C[j], F[j]) for j in range(len(F)))
-            and all(same(C[len(F) + j], R[j]) for j in range(len(R))))
+            and all(same(C[len(F) + j], R[j]) for j in range(len(R)))
+            and all(same(C[j], R[j - len(F)]) for j in range(len(F), len(C))))
 
 
 def File_rep(self):
@@ -148,6 +149,8 @@ def collect_abstract_post(self, old):
     return (len(R) >= len(R0) and all(same(R[j], R0[j]) for j in range(len(R0)))
             and len(C) == len(C0) + len(R) - len(R0) and all(same(C[j], C0[j]) for j in range(len(C0)))
             and all(same(C[len(C0) + j], R[len(R0) + j]) for j in range(len(R) - len(R0)))
+            and all(same(C[j], R[j - len(C0) + len(R0)]) for j in range(len(C0), len(C)))
+            and all(same(R[j], C[j - len(R0) + len(C0)]) for j in range(len(R0), len(R)))
             and same_obj(C, C0))
 
 
